@@ -640,3 +640,39 @@ func (x *Exec) nameLet(st *State, name string, v Value) Value {
 	st.add(Eq(f, sc.T))
 	return Sc{f}
 }
+
+// hasPrefix: p is a prefix (or suffix) of s, over absolute positions of s's
+// backing array (DESIGN 2.3 quantifier hygiene). Constant-length p unrolls.
+func (x *Exec) hasPrefix(st *State, s, p Sl, suffix bool) *Term {
+	sa, pa := x.slComp(st, s)[0], x.slComp(st, p)[0]
+	fits := x.ar.le(p.Len, s.Len, idxII)
+	start := s.Off
+	if suffix {
+		start = x.idxSub(x.idxAdd(s.Off, s.Len), p.Len)
+	}
+	if p.Len.IsConst() && p.Len.Val.IsInt64() && p.Len.Val.Int64() <= 64 {
+		cs := []*Term{fits}
+		for i := int64(0); i < p.Len.Val.Int64(); i++ {
+			cs = append(cs, Eq(Select(sa, x.idxAdd(start, x.ar.idxC(i))), Select(pa, x.idxAdd(p.Off, x.ar.idxC(i)))))
+		}
+		return And(cs...)
+	}
+	j := Var(fmt.Sprintf("j!%d", x.nextEpoch()), x.ar.idxSort())
+	in := And(x.ar.le(start, j, idxII), x.ar.lt(j, x.idxAdd(start, p.Len), idxII))
+	body := Implies(in, Eq(Select(sa, j), Select(pa, x.idxAdd(x.idxSub(j, start), p.Off))))
+	return And(fits, Forall([]*Term{j}, body, []*Term{Select(sa, j)}))
+}
+
+// hasBoolOp: the term contains ite/boolean structure (not allowed in patterns).
+func hasBoolOp(t *Term) bool {
+	switch t.Op {
+	case "ite", "not", "and", "or", "=>", "=", "<", "<=", "forall", "exists":
+		return true
+	}
+	for _, a := range t.Args {
+		if hasBoolOp(a) {
+			return true
+		}
+	}
+	return false
+}
